@@ -3605,9 +3605,16 @@ _dispatch_lane_drain(dispatch_lane_t dq, dispatch_invoke_context_t dic,
 			break;
 		}
 		if (likely(flags & DISPATCH_INVOKE_WORKLOOP_DRAIN)) {
-			dispatch_workloop_t dwl = (dispatch_workloop_t)_dispatch_get_wlh();
-			if (unlikely(_dispatch_queue_max_qos(dwl) > dwl->dwl_drained_qos)) {
-				break;
+			// Without kevent workloops the workloop is drained by an anonymous
+			// root queue worker: the thread is not bound to it and there is no
+			// workloop to read the drained QoS from.
+			dispatch_wlh_t wlh = _dispatch_get_wlh();
+			if (likely(wlh != DISPATCH_WLH_ANON)) {
+				dispatch_workloop_t dwl = (dispatch_workloop_t)wlh;
+				if (unlikely(_dispatch_queue_max_qos(dwl) >
+						dwl->dwl_drained_qos)) {
+					break;
+				}
 			}
 		}
 
